@@ -892,6 +892,9 @@ def abstract(sc: dict, tr: dict) -> list[dict]:
         if cfg is None:
             continue
         cj = _cfg_json(cfg)
+        if str(inst.get("how") or "").startswith("error") or inst.get("spin"):
+            items.append({"what": "crashed", "inst": {"uid": inst["uid"], "id": inst["id"], "how": inst.get("how"), "spin": inst.get("spin", False),
+                                                      "exit": inst["exit"]}})
         alive_until = inst["exit"] if inst["exit"] is not None else end
         iters = inst["iters"]
         presence = (cfg["interval"] is not None, cfg["sharp"], cfg["idle"] is not None, cfg["initial_delay"] is not None)
@@ -1043,6 +1046,10 @@ def _evaluate(ctx: Ctx, scenarios: list[dict], results: list[dict], stats: dict,
                 continue
             if item["what"] == "unmatched":
                 ctx.count("gate", "iteration-without-function-call")
+                continue
+            if item["what"] == "crashed":
+                ctx.tie_fail("C10: the timer task ended with an exception / spun without suspending (the model's loop does neither)",
+                             {"input": {"scenario": sc}, "impl": item["inst"], "model": "keeps looping"})
                 continue
             shape = item["shape"]
             ctx.case(key=shape, nontrivial=True,
